@@ -8,5 +8,5 @@ extern "C" void vp_mp(void)
 	if (IN(sm_n) >= 1) hsm->supportedMechanisms.push_back(IN(sm0));
 	if (IN(sm_n) >= 2) hsm->supportedMechanisms.push_back(IN(sm1));
 	CK_MECHANISM mech; mech.mechanism = IN(mech); mech.pParameter = NULL_PTR; mech.ulParameterLen = 0;
-	OUT(ret) = hsm->isMechanismPermitted(vp_obj(0), &mech) ? 1 : 0;
+	OUT(ret) = hsm->isMechanismPermitted(IN(key_null) ? (OSObject*)0 : vp_obj(0), &mech) ? 1 : 0;
 }
